@@ -356,3 +356,69 @@ Section Burndown.
         Ok (mkBR global ph pm merged ts sampling granularity)
       else Ok (mkBR global [] [] merged ts sampling granularity).
 End Burndown.
+
+(* ---------- the candidate repair of finding F8 (docs/C18-F8-candidate.patch) ----------
+   NOT the code of /repo today: kept here so that the replay driver can be switched to it (driver argument
+   "repaired" or C18_MODEL=repaired) the moment the repair is committed.  The theorems about it are in
+   Repaired.v, none of them is listed in props/C18.v. *)
+Definition add_member (people : table) (members : list (list Z)) (i : Z) (key : name) : result (list (list Z)) :=
+  let mi := Final (lookup0 people key) in
+  l <- idx members mi;
+  list_set members mi (l ++ [i]).
+Definition members_of (people : table) (rd : list name) (nm : nat) : result (list (list Z)) :=
+  foldMi (add_member people) rd 0 (repeat [] nm).
+
+Fixpoint add_row (a b : list Z) : list Z :=
+  match a, b with
+  | [], _ => b
+  | _, [] => a
+  | x :: a', y :: b' => (x + y) :: add_row a' b'
+  end.
+Fixpoint add_matrix (s h : matrix) : matrix :=
+  match s, h with
+  | [], _ => h
+  | _, [] => s
+  | r :: s', q :: h' => add_row r q :: add_matrix s' h'
+  end.
+(* sumDenseHistories *)
+Definition sum_hist (ph : list matrix) (indices : list Z) : result matrix :=
+  foldM (fun sum i => if i >=? lenZ ph then Ok sum else h <- idx ph i; Ok (add_matrix sum h)) indices [].
+
+Section Repaired.
+  Variable mergeM : matrix -> matrix -> matrix.
+
+  Definition bd_history_repaired (ph1 ph2 : list matrix) (mem1 mem2 : list (list Z)) (w : Z) : result matrix :=
+    i1 <- idx mem1 w;
+    i2 <- idx mem2 w;
+    m1 <- sum_hist ph1 i1;
+    m2 <- sum_hist ph2 i2;
+    Ok (mergeM m1 m2).
+
+  Fixpoint seqZm (start : Z) (n : nat) : list Z :=
+    match n with O => [] | S n' => start :: seqZm (start + 1) n' end.
+
+  Definition bd_people_matrix_repaired (people : table) (merged : list name) (r1 r2 : BurndownResult) : result matrix :=
+    if nonempty (br_pm r2) then
+      let nm := length merged in
+      rows <- foldMi (bd_pm_row people (br_people r1) false (br_pm r1)) (br_people r1) 0
+                     (repeat (zeros (nm + 2)) nm);
+      foldMi (bd_pm_row people (br_people r2) false (br_pm r2)) (br_people r2) 0 rows
+    else Ok (bd_pm_extend (br_pm r1) (length (br_people r1)) (length merged)).
+
+  Definition bd_merge_repaired (people : table) (merged : list name) (r1 r2 : BurndownResult) : result BurndownResult :=
+    if negb (br_ticksize r1 =? br_ticksize r2) then TickErr
+    else
+      let ts := if br_ticksize r1 =? 0 then DefaultTickSize else br_ticksize r1 in
+      let sampling := if br_sampling r1 <? br_sampling r2 then br_sampling r1 else br_sampling r2 in
+      let granularity := if br_granularity r1 <? br_granularity r2 then br_granularity r1 else br_granularity r2 in
+      let global := if nonempty (br_global r1) || nonempty (br_global r2)
+                    then mergeM (br_global r1) (br_global r2) else [] in
+      if nonempty merged then
+        mem1 <- members_of people (br_people r1) (length merged);
+        mem2 <- members_of people (br_people r2) (length merged);
+        ph <- (if nonempty (br_ph r1) || nonempty (br_ph r2)
+               then mapM (bd_history_repaired (br_ph r1) (br_ph r2) mem1 mem2) (seqZm 0 (length merged)) else Ok []);
+        pm <- bd_people_matrix_repaired people merged r1 r2;
+        Ok (mkBR global ph pm merged ts sampling granularity)
+      else Ok (mkBR global [] [] merged ts sampling granularity).
+End Repaired.
